@@ -514,8 +514,21 @@ def string_pieces(t):
                     x = strip(x)
                     if not (x.tag == 'call' and x[1].split('::')[-1] == 'new_display' and len(x[2]) == 1):
                         return None
-                    fargs.append(('dec', x[2][0]))
-                return fmt_template_pieces(strip(a[2][0])[1], fargs)
+                    x0 = strip(x[2][0])
+                    # `{}` of a string constant is the string itself; of anything else, its Display rendering
+                    fargs.append((x0[1] if isinstance(x0[1], bytes) else x0[1].encode()) if x0.tag == 'const' and isinstance(x0[1], (bytes, str)) else ('dec', x[2][0]))
+                ps = fmt_template_pieces(strip(a[2][0])[1], fargs)
+                if ps is None:
+                    return None
+                merged = []
+                for p_ in ps:
+                    if isinstance(p_, bytes) and not p_:
+                        continue
+                    if isinstance(p_, bytes) and merged and isinstance(merged[-1], bytes):
+                        merged[-1] = merged[-1] + p_
+                    else:
+                        merged.append(p_)
+                return merged
     return None
 
 
